@@ -52,6 +52,9 @@ type EnumRule struct {
 	Name  string   `json:"name"`
 	Items []Val    `json:"items"`
 	Notes []string `json:"notes,omitempty"`
+	// Between[i]: a comment on a line of its own before item i ("" = none); one more entry may
+	// follow for a comment after the last item
+	Between []string `json:"between,omitempty"`
 }
 
 type Project struct {
